@@ -29,7 +29,10 @@ def eval_call(self: Exec, n, env):
     if self.old_env is None:
       raise OutsideSubset('old() outside a postcondition')
     saved_store, saved_heap = self.store, self.heap
-    self.store = self.old_store
+    merged = self.store.copy() if hasattr(self.store, 'copy') else dict(self.store)
+    for k_, v_ in dict.items(self.old_store):
+      dict.__setitem__(merged, k_, v_)   # entry values of the boxes that existed at entry; later locals keep their current value
+    self.store = merged
     self.heap = self.old_heap if self.old_heap is not None else self.heap
     try:
       e_old = Env(env)  # bound variables of enclosing quantifiers stay visible
